@@ -468,7 +468,10 @@ func smallBundleAsm(t *rapid.T) refbundle.Asm {
 	}
 	n := rapid.IntRange(1, 4).Draw(t, "bn")
 	for i := 0; i < n; i++ {
-		a.Resps = append(a.Resps, refbundle.AsmResp{Fields: []refbundle.HeaderField{{Name: ":status", Value: "200"}, {Name: "content-type", Value: "text/plain"}},
+		status := rapid.SampledFrom([]string{"200", "200", "200", "404", "200x", "200 ", "200 OK", "2000", "20", "", "abc", "9223372036854775808", "99999999999999999999", "+20", "-20", "2 0", "200\n", "\u0662\u0660\u0660", "1e2"}).Draw(t, "bstatus")
+		hname := rapid.SampledFrom([]string{"content-type", "content-type", "x-a", "X-Upper", ":path", "", "x a", "content-type\x00", "\xc3\xa9"}).Draw(t, "bhname")
+		hval := rapid.SampledFrom([]string{"text/plain", "text/plain", "", "\xff", "a\x00b", "\xc3\xa9", strings.Repeat("v", 300)}).Draw(t, "bhval")
+		a.Resps = append(a.Resps, refbundle.AsmResp{Fields: []refbundle.HeaderField{{Name: ":status", Value: status}, {Name: hname, Value: hval}},
 			BodyLen: rapid.SampledFrom([]int{0, 5, 100, 300}).Draw(t, "bbody"), BodyTag: uint64(i)})
 		a.Index = append(a.Index, refbundle.AsmIndex{URL: fmt.Sprintf("https://a.example/%d", i), Resps: []int{i}})
 	}
